@@ -122,7 +122,7 @@ func mergeRecs(b []byte) []sim.Rec {
 func RunCluster(t *testing.T, cs *ClusterScenario) []*Result {
 	sc := &cs.Sc
 	var results []*Result
-	ok := sim.Bubble(t, 20*time.Second, func(t *testing.T) {
+	ok := sim.Bubble(t, 10*time.Second, func(t *testing.T) {
 		net := vh.NewRand(cs.Cl.NetSeed)
 		pp := vh.NewRand(cs.Cl.NetSeed + 7)
 		insts := make([]*inst, cs.Cl.N)
@@ -168,6 +168,7 @@ func RunCluster(t *testing.T, cs *ClusterScenario) []*Result {
 			r.TEnd = time.Now().UnixNano()
 			r.Recs = in.s.Recs()
 			for k, m := range sc.LabelSets {
+				r.member[k+1] = sc.refGroups(toLS(m))
 				for _, g := range in.s.GroupKeysFor(toLS(m)) {
 					if _, ok := r.Groups[g.Key]; !ok {
 						o := g.Route.RouteOpts
@@ -177,7 +178,6 @@ func RunCluster(t *testing.T, cs *ClusterScenario) []*Result {
 						}
 						r.Groups[g.Key] = &GroupInfo{Key: g.Key, Receiver: o.Receiver, GW: int64(o.GroupWait), GI: int64(o.GroupInterval), RI: int64(o.RepeatInterval), Timeout: to, Ints: sc.Receivers[o.Receiver]}
 					}
-					r.member[k+1] = append(r.member[k+1], g.Key)
 				}
 			}
 			results = append(results, r)
@@ -244,6 +244,9 @@ func RunCluster(t *testing.T, cs *ClusterScenario) []*Result {
 					if snap != nil {
 						rd = bytes.NewReader(snap)
 						initial = mergeRecs(snap)
+						for k := range initial {
+							initial[k].Kind = "load" // loadSnapshot: no expiry check, unlike a gossip merge
+						}
 					}
 					start(c.Inst, rd, initial)
 				}
@@ -382,6 +385,9 @@ func MonitorC08(cs *ClusterScenario, results []*Result) []vh.Violation {
 			}
 			for _, gk := range r0.member[id] {
 				g := r0.Groups[gk]
+				if g == nil {
+					continue
+				}
 				bound := g.GW
 				if g.GI > bound {
 					bound = g.GI
@@ -430,7 +436,7 @@ func MonitorC08(cs *ClusterScenario, results []*Result) []vh.Violation {
 					}
 					superseded := false
 					for _, m := range all {
-						if m.gkey == a.gkey && m.i == a.i && m.T > lo && m.T < hi && (m.firing != a.firing || m.resolved != a.resolved) {
+						if m.gkey == a.gkey && m.i == a.i && m.T >= lo && m.T <= hi && (m.firing != a.firing || m.resolved != a.resolved) {
 							superseded = true
 						}
 					}
